@@ -82,6 +82,7 @@ pub struct Sim {
 	cv: Condvar,
 	policy: AtomicU8,
 	poisoned: AtomicBool,
+	zero_sleeps: std::sync::atomic::AtomicU64,
 }
 
 struct TaskCtx {
@@ -96,7 +97,11 @@ impl SimContext for TaskCtx {
 	fn spawn(&self, f: Box<dyn FnOnce() + Send + 'static>) {
 		self.sim.spawn_task("decoder", Role::Decoder, f);
 	}
-	fn sleep(&self, _duration: Duration) {
+	fn sleep(&self, duration: Duration) {
+		// (a wait of zero length is no wait: counted, so that a check can call it a busy spin)
+		if duration.is_zero() {
+			self.sim.zero_sleeps.fetch_add(1, Ordering::SeqCst);
+		}
 		self.sim.sleep_from(self.id);
 	}
 }
@@ -149,6 +154,7 @@ impl Sim {
 			cv: Condvar::new(),
 			policy: AtomicU8::new(POLICY_DIRECTED),
 			poisoned: AtomicBool::new(false),
+			zero_sleeps: std::sync::atomic::AtomicU64::new(0),
 		});
 		verif::install(Some(Arc::new(TaskCtx {
 			sim: sim.clone(),
@@ -194,6 +200,11 @@ impl Sim {
 
 	pub fn steps(&self) -> u64 {
 		self.inner.lock().unwrap().steps
+	}
+
+	/// sleeps of zero duration asked for by simulated tasks
+	pub fn zero_sleeps(&self) -> u64 {
+		self.zero_sleeps.load(Ordering::SeqCst)
 	}
 
 	pub fn switches(&self) -> u64 {
